@@ -170,6 +170,9 @@ class Engine:
         """Run the body; returns list of (state, Return|RaiseExc)."""
         saved = (self.cur, self.cur_contract, self.loop_ord)
         self.cur, self.cur_contract, self.loop_ord = finfo, contract, 0
+        self.loop_ids = {}
+        for n in _loops_in_order(finfo.node):
+            self.loop_ids[id(n)] = len(self.loop_ids)
         st.env = dict(argvals)
         try:
             outs = self.exec_block(finfo.body, st)
@@ -387,7 +390,7 @@ class Engine:
         return None
 
     def st_For(self, node, st):
-        k = self.next_loop()
+        k = self.loop_ids[id(node)]
         nloops_inside = _count_loops(node.body)
         outs = []
         for s, it in self.ev(node.iter, st):
@@ -513,7 +516,7 @@ class Engine:
         return outs
 
     def st_While(self, node, st):
-        k = self.next_loop()
+        k = self.loop_ids[id(node)]
         nloops_inside = _count_loops(node.body)
         spec = self.loop_spec(k)
         if node.orelse:
@@ -885,6 +888,12 @@ class Engine:
                 return [(st, BoundMethod(q, ref))]
             if name in obj.fields:
                 return [(st, obj.fields[name])]
+        if getattr(obj, "abs", None) is not None:
+            from spec import layout
+            key, idx = self.parse_attr_name(st, name)
+            has, get = layout.attr_funs(key, len(idx))
+            missing = RaiseExc(AttributeError, f"no attribute {name!r}") if default is _NODEFAULT else default
+            return self.split(st, Cases([(has(obj.abs, *idx), SInt(get(obj.abs, *idx))), (z3.Not(has(obj.abs, *idx)), missing)]))
         key, idx = self.parse_attr_name(st, name)
         ent = self.attr_entry(st, obj, key, len(idx))
         if ent is None:
@@ -975,6 +984,8 @@ class Engine:
     def raw_store(self, st, o, name, v):
         obj = st.obj(o)
         name = norm(name)
+        if getattr(obj, "abs", None) is not None and not (isinstance(name, str) and (name in obj.fields or name.startswith("_"))):
+            raise EngineUnsupported(f"attribute store {name!r} on an abstract message state")
         if isinstance(name, str) and (name.startswith("_") or not getattr(obj, "dynamic", False)):
             obj.fields[name] = v
             st.writes.add((o.oid, name))
@@ -1085,6 +1096,22 @@ def _assigned_names(node):
         elif isinstance(n, ast.ExceptHandler) and n.name:
             names.add(n.name)
     return names
+
+
+def _loops_in_order(node):
+    out = []
+
+    class V(ast.NodeVisitor):
+        def visit_For(self, n):
+            out.append(n)
+            self.generic_visit(n)
+
+        def visit_While(self, n):
+            out.append(n)
+            self.generic_visit(n)
+
+    V().visit(node)
+    return out
 
 
 def _count_loops(stmts):
